@@ -162,7 +162,9 @@ class Task:
     def harness_text(s):
         L = ["void harness(void) {"]
         for v in s.vars:
-            if v.init is None: L.append("  %s %s;" % (v.ctype, v.name))
+            if v.init is None and v.ctype == "_Bool":   # CBMC's nondeterministic _Bool is any byte; C's is 0 or 1
+                L.append("  unsigned char %s__raw; _Bool %s = (%s__raw & 1) != 0;" % (v.name, v.name, v.name))
+            elif v.init is None: L.append("  %s %s;" % (v.ctype, v.name))
             else: L.append("  %s %s = %s;" % (v.ctype, v.name, v.init))
         for v in s.vars:
             if v.assume: L.append("  __CPROVER_assume(%s);" % v.assume)
